@@ -11,16 +11,8 @@ Import ListNotations.
 Open Scope string_scope.
 Open Scope list_scope.
 
-(* ---------- rounding of literals: the meaning with exact literals and with %f literals agree when
-   every numeric literal survives %f unchanged (at most six decimals) ---------- *)
-Definition lit_exact (v : Traceql.value) : bool :=
-  match lit_value true v, lit_value false v with
-  | Some a, Some b => Qeq_bool a b
-  | None, None => true
-  | _, _ => false
-  end.
-Definition lits_exact (e : attr_exp) : bool := forallb (fun t => lit_exact (a_val t)) (exp_terms e).
-
+(* ---------- literals: the meaning with the literals as printed into the statement and with the exact
+   literals of the query agree when every printed literal parses back to the query's number (lits_exact) ---------- *)
 Lemma Qle_bool_compat_r x a b : (a == b)%Q -> Qle_bool x a = Qle_bool x b.
 Proof. intros E. apply eq_true_iff_eq. rewrite !Qle_bool_iff. now rewrite E. Qed.
 Lemma Qle_bool_compat_l x a b : (a == b)%Q -> Qle_bool a x = Qle_bool b x.
